@@ -11,10 +11,12 @@ Fixpoint lookupN {A} (d : A) (k : N) (l : list (N * A)) : A :=
 Definition mk_env (ne : list bool) (bk : list (list item)) (fmt : list (list (N * list item)))
            (users : list (list item)) (parses : list (str * option ptree))
            (srcs : list (outcome (list str))) (files : list iid)
-           (bkvars : list vars) (fmtvars : list (list (N * vars))) (uservars : list vars) : env :=
+           (bkvars : list vars) (fmtvars : list (list (N * vars))) (uservars : list vars)
+           (qexpr : list (option str)) (sdef : list (list (str * str))) : env :=
   {| e_ne := nthN false ne; e_bk := nthN [] bk;
      e_fmt := fun c f => lookupN [] f (nthN [] fmt c);
      e_user := nthN [] users;
+     e_qexpr := nthN None qexpr; e_sdef := nthN [] sdef;
      e_bkvars := nthN [] bkvars;
      e_fmtvars := fun c f => lookupN [] f (nthN [] fmtvars c);
      e_uservars := nthN [] uservars;
